@@ -172,6 +172,7 @@ Definition dec_tev (nt : net) (t : tree) : option tev :=
   | T [L 9; L n] => n <- nd n ;; Some (TShutEnd n)
   | T [L 10; c] => c <- getB c ;; Some (TDone c)
   | T [L 11; L n] => Some (TSetup (match nd n with Some i => i | None => length nt end))
+  | T [L 12; k] => k <- getNat k ;; Some (TPrepFail k)
   | _ => None
   end.
 Definition dec_counters (t : tree) : option counters :=
